@@ -7,6 +7,7 @@ package verifrt
 
 import (
 	"bytes"
+	"math/rand"
 	"net"
 
 	"encoding/json"
@@ -82,6 +83,10 @@ func next(kind string) rec {
 	defer mu.Unlock()
 	load()
 	if pos >= len(recs) {
+		if len(Failures) > 0 {
+			// the executor ends a path at its first failed assertion; natively the harness runs on: feed it zeros
+			return rec{Kind: kind, Val: zeroOf(kind)}
+		}
 		panic(fmt.Sprintf("verifrt: replay exhausted at %d (want %s)", pos, kind))
 	}
 	r := recs[pos]
@@ -90,6 +95,16 @@ func next(kind string) rec {
 		panic(fmt.Sprintf("verifrt: replay divergence at %d: recorded %s, harness asks %s", pos-1, r.Kind, kind))
 	}
 	return r
+}
+
+func zeroOf(kind string) interface{} {
+	switch kind {
+	case "bool":
+		return false
+	case "string", "uuid", "json":
+		return ""
+	}
+	return json.Number("0")
 }
 
 func asInt64(v interface{}) int64 {
@@ -174,6 +189,10 @@ func RunPending() { time.Sleep(40 * time.Millisecond) }
 
 // HeldLocks returns the number of sync locks currently held by the logical thread (executor only; 0 natively).
 func HeldLocks() int { return 0 }
+
+// Yield is a preemption point: symbolically, whether another runnable logical thread runs first is a decision;
+// natively the goroutine sleeps for a short random time so that repeated replays visit different schedules.
+func Yield() { time.Sleep(time.Duration(rand.Intn(300)) * time.Microsecond) }
 
 // HeldLockSites names where the currently held locks were taken (executor only).
 func HeldLockSites() string { return "" }
@@ -273,6 +292,7 @@ func Shares(a, b interface{}) bool {
 // Run executes a harness natively for replay and reports whether it failed (assertion or unexpected panic).
 func Run(name string, f func()) (failed bool, detail string) {
 	Reset()
+	defer cleanupListeners()
 	defer func() {
 		if r := recover(); r != nil {
 			if expectP {
@@ -338,3 +358,129 @@ func NewRPCClient(peer RPCPeer) *rpc2.Client {
 
 // RPCCalls returns the number of calls answered by peers so far.
 func RPCCalls() int { mu.Lock(); defer mu.Unlock(); return rpcCalls }
+
+// DialPeer answers the calls a connection made to a Listen endpoint carries: conn is the handle through which the
+// peer can call back into the connected client (notifications).
+type DialPeer func(conn *rpc2.Client, method string, args []json.RawMessage) (interface{}, error)
+
+type nativeListener struct {
+	mu    sync.Mutex
+	dir   string
+	path  string
+	ln    net.Listener
+	peer  DialPeer
+	conns []net.Conn
+}
+
+var listeners = map[string]*nativeListener{}
+
+func (l *nativeListener) start() {
+	ln, err := net.Listen("unix", l.path)
+	if err != nil {
+		panic("verifrt: " + err.Error())
+	}
+	l.mu.Lock()
+	l.ln = ln
+	l.mu.Unlock()
+	go func() {
+		for {
+			c, err := ln.Accept()
+			if err != nil {
+				return
+			}
+			l.mu.Lock()
+			l.conns = append(l.conns, c)
+			l.mu.Unlock()
+			srv := rpc2.NewServer()
+			for _, m := range rpcMethods {
+				method := m
+				srv.Handle(method, func(client *rpc2.Client, args []json.RawMessage, reply *interface{}) error {
+					mu.Lock()
+					rpcCalls++
+					mu.Unlock()
+					r, err := l.peer(client, method, args)
+					if err != nil {
+						return err
+					}
+					*reply = r
+					return nil
+				})
+			}
+			go srv.ServeCodec(jsonrpc.NewJSONCodec(c))
+		}
+	}()
+}
+
+// Listen makes an endpoint ("unix:<path>") a client under test can connect to; every call arriving on a
+// connection is answered by peer. In the executor the dial, the codec and the rpc2 client are stubbed and calls
+// travel synchronously as JSON trees; natively a real unix socket served by a real rpc2 server is used.
+func Listen(peer DialPeer) string {
+	dir, err := os.MkdirTemp("", "verifsock")
+	if err != nil {
+		panic("verifrt: " + err.Error())
+	}
+	l := &nativeListener{dir: dir, path: dir + "/s.sock", peer: peer}
+	l.start()
+	ep := "unix:" + l.path
+	mu.Lock()
+	listeners[ep] = l
+	mu.Unlock()
+	return ep
+}
+
+// SetListening stops (new connections are refused) or restarts an endpoint.
+func SetListening(endpoint string, on bool) {
+	mu.Lock()
+	l := listeners[endpoint]
+	mu.Unlock()
+	if l == nil {
+		return
+	}
+	l.mu.Lock()
+	ln := l.ln
+	l.mu.Unlock()
+	if !on && ln != nil {
+		ln.Close()
+		os.Remove(l.path)
+		l.mu.Lock()
+		l.ln = nil
+		l.mu.Unlock()
+	}
+	if on && ln == nil {
+		l.start()
+	}
+}
+
+// CutConnections closes every connection accepted so far (the listeners stay as they are).
+func CutConnections() {
+	mu.Lock()
+	ls := make([]*nativeListener, 0, len(listeners))
+	for _, l := range listeners {
+		ls = append(ls, l)
+	}
+	mu.Unlock()
+	for _, l := range ls {
+		l.mu.Lock()
+		for _, c := range l.conns {
+			c.Close()
+		}
+		l.conns = nil
+		l.mu.Unlock()
+	}
+	time.Sleep(20 * time.Millisecond)
+}
+
+func cleanupListeners() {
+	mu.Lock()
+	defer mu.Unlock()
+	for ep, l := range listeners {
+		if l.ln != nil {
+			l.ln.Close()
+		}
+		for _, c := range l.conns {
+			c.Close()
+		}
+		os.RemoveAll(l.dir)
+		delete(listeners, ep)
+	}
+}
